@@ -58,6 +58,22 @@ def cmp_fields(op, field):
     return f
 
 
+def len_is_zero():
+    """`slice.len() == 0` in the shape slice patterns compile to: PtrMetadata(..) == 0, or a call to is_empty()."""
+    def f(c):
+        if c.kind == "call":
+            return (c.data[0] or "").endswith("::is_empty") and c.data[1] is True
+        if c.kind != "cmp" or c.data[0] != "==":
+            return False
+        a, b = c.data[1], c.data[2]
+        def meta(x):
+            return bool(x) and all(o[0] == "un" and o[1] == "PtrMetadata" or (o[0] == "call" and o[2].endswith("::len")) for o in x)
+        def zero(x):
+            return bool(x) and all(o[0] == "const" and o[1] == 0 for o in x)
+        return (meta(a) and zero(b)) or (meta(b) and zero(a))
+    return f
+
+
 def any_of(*fs):
     return lambda c: any(f(c) for f in fs)
 
@@ -169,53 +185,173 @@ ENTRIES = {
     "step-until-steps": dict(
         body="simulation::Simulation::step_until", effect=calls(r"Simulation::step_until_unchecked$"), excused_sites=err_results,
         what="step_until returns Ok only through step_until_unchecked"),
+    # ---- sender family: the body that creates / polls the channel send (C03, C02, C14)
+    "senders-create-channel-send": dict(
+        bodies=r"^<ports::(output|source)::sender::\w+ as ports::(output|source)::sender::Sender>::send(_owned)?(::\{closure#\d+\})*$",
+        effect=calls(r"^channel::Sender::send$"), only_if_present=True, floor=12,
+        what="a sender body that forwards to the recipient's mailbox creates the channel send on every path (filtering happens outside, "
+             "in Option::map)"),
+    "senders-await-channel-send": dict(
+        bodies=r"^<ports::(output|source)::sender::\w+ as ports::(output|source)::sender::Sender>::send(_owned)?(::\{closure#\d+\})*$",
+        effect=lambda b: [s for s in b.calls(r"^std::future::Future::poll$") if (s.node.get("resolved_n") or "") == "channel::Sender::send::{closure#0}"],
+        only_if_present=True, floor=9,
+        what="a sender future that awaits the channel send completes only after polling it"),
+    "sink-senders-write": dict(
+        bodies=r"^<ports::output::sender::\w*EventSinkSender as ports::output::sender::Sender>::send(_owned)?(::\{closure#\d+\})*$",
+        effect=calls(r"ports::sink::EventSinkWriter::write$"), only_if_present=True, floor=3,
+        what="a sink sender writes the event on every path"),
+    "direct-sends-await": dict(
+        bodies=r"^simulation::(Simulation::process_event|Simulation::process_query|scheduler::process_event|scheduler::send_keyed_event)::\{closure#0\}$",
+        effect=lambda b: [s for s in b.calls(r"^std::future::Future::poll$") if (s.node.get("resolved_n") or "") == "channel::Sender::send::{closure#0}"],
+        excuse=call_is(r"ActionKey::is_cancelled$", True), floor=4,
+        what="a directly sent event/query completes only after polling the channel send (a keyed event: unless its key is cancelled)"),
+    # ---- broadcast coroutines
+    "output-broadcast-polls": dict(
+        bodies=r"^ports::output::broadcaster::(Event|Query)Broadcaster::broadcast::\{closure#0\}$",
+        effect=calls(r"^std::future::Future::poll$"),
+        excuse=any_of(len_is_zero(), variant_is({"None"}, r"Sender::send(_owned)?$")), floor=2,
+        what="a broadcast completes only after polling a send future, unless there is no connection or the only connection filtered the message"),
+    "source-broadcast-polls": dict(
+        bodies=r"^ports::source::broadcaster::(Event|Query)Broadcaster::broadcast::\{closure#0\}$",
+        effect=calls(r"^std::future::Future::poll$"),
+        excuse=any_of(len_is_zero(), variant_is({"Empty"}), variant_is({"None"})), floor=2,
+        what="a source broadcast completes only after polling a send future, unless there is no (accepting) connection"),
+    "event-source-broadcasts": dict(
+        bodies=r"^ports::source::EventSource::(event|keyed_event|periodic_event|keyed_periodic_event)(::\{closure#0\}::\{closure#0\})?$",
+        effect=calls(r"ports::source::broadcaster::EventBroadcaster::broadcast$"), only_if_present=True, floor=4,
+        what="an EventSource action broadcasts its event on every path"),
+    # ---- scheduler queue helpers (C10, C09)
+    "periodic-reinserted": dict(
+        body="simulation::Simulation::step_to_next_bounded::pull_next_action", start=calls(r"scheduler::Action::next$"),
+        effect=calls(r"PriorityQueue::insert$"), excuse=variant_is({"None"}, r"scheduler::Action::next$"),
+        what="a pulled periodic action (next() is Some) is re-inserted on every path"),
+    "cancelled-head-discarded": dict(
+        body="simulation::Simulation::step_to_next_bounded::{closure#0}", start=calls(r"scheduler::Action::is_cancelled$"),
+        effect=calls(r"PriorityQueue::pull$"), excuse=call_is(r"scheduler::Action::is_cancelled$", False),
+        what="a cancelled head of the queue is pulled (discarded) on every path before the next peek"),
+    # ---- executors (C04, C13)
+    "st-spawn-enqueues": dict(
+        bodies=r"^executor::st_executor::Executor::spawn(_and_forget)?$", effect=calls(r"^std::vec::Vec::push$"), floor=2,
+        what="a spawned task is put on the run queue on every path"),
+    "mt-spawn-enqueues": dict(
+        bodies=r"^executor::mt_executor::Executor::spawn(_and_forget)?$", effect=calls(r"injector::Injector::insert_task$"), floor=2,
+        what="a spawned task is put into the injector on every path"),
+    "mt-run-returns-only-idle": dict(
+        body="executor::mt_executor::Executor::run", only_via=call_is(r"PoolManager::pool_is_idle$", True), excused_sites=err_results,
+        what="Executor::run (multi-threaded) returns Ok only on the branch where the pool was seen idle"),
+    "exec-run-dispatches": dict(
+        body="executor::Executor::run", effect=calls(r"^executor::(st_executor|mt_executor)::Executor::run$"),
+        what="Executor::run always runs one of the two executors"),
+    "st-run-runs-inner": dict(
+        body="executor::st_executor::Executor::run", effect=calls(r"st_executor::ExecutorInner::run$|^std::thread::spawn$"),
+        what="the single-threaded Executor::run always enters the run loop"),
+    # ---- model registration (C16, C06)
+    "add-model-spawns-loop": dict(
+        body="simulation::add_model", effect=calls(r"executor::Executor::spawn_and_forget$"),
+        what="add_model spawns the model's task on every path"),
+    "add-model-registers": dict(
+        body="simulation::add_model", effect=calls(r"^std::vec::Vec::push$"),
+        what="add_model registers the model (name / observer) on every path"),
+    "sim-init-add-model-delegates": dict(
+        body="simulation::sim_init::SimInit::add_model", effect=calls(r"^simulation::add_model$"),
+        what="SimInit::add_model always goes through simulation::add_model"),
+    "add-submodel-delegates": dict(
+        body="model::context::BuildContext::add_submodel", effect=calls(r"^simulation::add_model$"),
+        what="BuildContext::add_submodel always goes through simulation::add_model"),
+    # ---- connections (C14, C03)
+    "connect-registers": dict(
+        bodies=r"^ports::output::(Output|Requestor)::(\w*connect\w*)$", effect=calls(r"broadcaster::BroadcasterInner::add$|Broadcaster::add$"),
+        only_if_present=True, floor=9,
+        what="every connect method adds the sender to the broadcaster on every path"),
+    "cached-write-bumps-epoch": dict(
+        body="util::cached_rw_lock::CachedRwLock::write", effect=calls(r"atomic::Atomic\w*::store$"),
+        what="taking the shared write lock always advances the epoch (else clones never refresh)"),
+    # ---- drop (C19)
+    "receiver-drop-closes": dict(
+        body="<channel::Receiver as std::ops::Drop>::drop", effect=calls(r"channel::queue::Queue::close$"),
+        what="dropping the receiver closes the mailbox on every path"),
+    "receiver-drop-notifies": dict(
+        body="<channel::Receiver as std::ops::Drop>::drop", effect=calls(r"async_event::Event::notify_all$"),
+        what="dropping the receiver wakes every blocked sender on every path"),
+    "mt-drop-joins": dict(
+        body="<executor::mt_executor::Executor as std::ops::Drop>::drop", effect=calls(r"std::thread::JoinHandle::join$"),
+        excuse=variant_is({"None"}, r"Iterator::next$"),
+        what="dropping the multi-threaded executor joins its workers on every path (the loop over the drained handles ends only at None)"),
+    "mt-drop-aborts": dict(
+        body="<executor::mt_executor::Executor as std::ops::Drop>::drop", effect=calls(r"executor::Signal::set$"),
+        what="dropping the multi-threaded executor raises the abort signal on every path"),
 }
+
+
+def _bodies_of(P, e):
+    if "body" in e:
+        b = P.body(e["body"])
+        return [b] if b is not None else []
+    rx = re.compile(e["bodies"])
+    return [b for b in P.all_bodies() if rx.search(b.name) and "::tests" not in b.name]
+
+
+def _check_one(ctx, eid, e, b, keyed):
+    eff = e["effect"](b) if e.get("effect") else []
+    if not eff and not e.get("only_via"):
+        if e.get("only_if_present"):
+            return False
+        ctx.missing("must-pass %s: effect site in %s" % (eid, b.name))
+        return True
+    excused = e["excused_sites"](b) if e.get("excused_sites") else []
+    ex = e.get("excuse") or e.get("only_via")
+    cache = {}
+
+    def skip(x, y):
+        if ex is None:
+            return False
+        k = (x, y)
+        if k not in cache:
+            try:
+                cache[k] = bool(ex(Cond(b, x, y)))
+            except Exception:
+                cache[k] = False
+        return cache[k]
+
+    starts = e["start"](b) if e.get("start") else [None]
+    if e.get("start") and not starts:
+        if e.get("only_if_present"):
+            return False
+        ctx.missing("must-pass %s: start site in %s" % (eid, b.name))
+        return True
+    bad = None
+    for st in starts:
+        p = b.escape_path(st, avoiding=eff + excused, skip_edge=skip)
+        if p is not None:
+            bad = p
+            break
+    msg = e["what"]
+    sites = list(eff[:4]) or [b.name + " at " + b.file]
+    if bad is not None:
+        msg += " -- escape path through blocks " + "->".join("bb%d" % x for x in bad[:14])
+        for x in reversed(bad):
+            if b.blocks[x]["term"]["t"] in ("switch", "call"):
+                sites = [Site(b, x, TERM)] + sites
+                break
+    ctx.ob("must-pass|%s%s" % (eid, ("|" + b.name) if keyed else ""), bad is None, msg, sites)
+    return True
 
 
 def check(ctx, ids):
     P = ctx.prog
     for eid in ids:
         e = ENTRIES[eid]
-        b = P.body(e["body"])
-        if b is None:
-            ctx.missing("must-pass %s: body %s" % (eid, e["body"]))
+        bs = _bodies_of(P, e)
+        if not bs:
+            if e.get("may_be_absent"):
+                ctx.ob("must-pass|%s|not-compiled" % eid, True, "not part of this configuration", [])
+            else:
+                ctx.missing("must-pass %s: body %s" % (eid, e.get("body") or e.get("bodies")))
             continue
-        eff = e["effect"](b)
-        if not eff:
-            ctx.missing("must-pass %s: effect site in %s" % (eid, b.name))
-            continue
-        excused = e["excused_sites"](b) if e.get("excused_sites") else []
-        ex = e.get("excuse")
-        cache = {}
-
-        def skip(x, y, ex=ex, b=b, cache=cache):
-            if ex is None:
-                return False
-            k = (x, y)
-            if k not in cache:
-                try:
-                    cache[k] = bool(ex(Cond(b, x, y)))
-                except Exception:
-                    cache[k] = False
-            return cache[k]
-
-        starts = e["start"](b) if e.get("start") else [None]
-        if e.get("start") and not starts:
-            ctx.missing("must-pass %s: start site in %s" % (eid, b.name))
-            continue
-        bad = None
-        for st in starts:
-            p = b.escape_path(st, avoiding=eff + excused, skip_edge=skip)
-            if p is not None:
-                bad = p
-                break
-        msg = e["what"]
-        sites = list(eff[:4])
-        if bad is not None:
-            msg += " -- escape path through blocks " + "->".join("bb%d" % x for x in bad[:14])
-            # name the last branching block of the escape as the offending site
-            for x in reversed(bad):
-                if b.blocks[x]["term"]["t"] in ("switch", "call"):
-                    sites = [Site(b, x, TERM)] + sites
-                    break
-        ctx.ob("must-pass|%s" % eid, bad is None, msg, sites)
+        n = 0
+        for b in bs:
+            if _check_one(ctx, eid, e, b, keyed="bodies" in e):
+                n += 1
+        if "bodies" in e:
+            ctx.ob("must-pass|%s|floor" % eid, n >= e.get("floor", 1),
+                   "family `%s`: expected >= %d members with the effect (found %d)" % (eid, e.get("floor", 1), n), [])
